@@ -18,6 +18,25 @@ TABLE = {
         note="closed-form derivatives (self-tested against finite differences); float64; monomial basis "
              "determines constant-coefficient operators of order<=2 only",
         ref="DESIGN.md §4 C01"),
+    "C03": dict(
+        technique="runtime oracle + metamorphic monitor on (total, terms) of the real losses with harness-written equations",
+        level="exploration",
+        text="For ODE / stationary / non-stationary losses with pointwise and separable networks and every subset of "
+             "optional parts configured: total == sum of returned terms, unconfigured terms are exactly 0.0, the "
+             "dynamic term equals the numpy batch mean of the weighted squared residual components, and the real "
+             "values satisfy linearity in the weight (scalar, per component), permutation invariance and the "
+             "two-halves identity; compiled and eager.",
+        note="user equations with an explicit component axis; separable networks average over the tensor grid",
+        ref="DESIGN.md §4 C03"),
+    "C05": dict(
+        technique="runtime oracle monitor: initial-condition / normalisation / observation terms vs numpy definitions",
+        level="exploration",
+        text="The three terms of the real single losses are compared with numpy formulas on analytic fields: ODE "
+             "initial state at t0 != 0 (with parameter batch), PDE initial functions returning (k,) or a scalar, "
+             "Monte-Carlo normalisation (cases built so that mean-of-squares and square-of-mean differ), observation "
+             "tables through the real loader with slices and observed parameters read by the network's transforms.",
+        note="scalar u for the normalisation term; per-component weights only for PDE initial condition and observations",
+        ref="DESIGN.md §4 C05"),
     "C04": dict(
         technique="runtime oracle monitor: real boundary term vs numpy formula with closed-form normal derivatives; facet measured on the points",
         level="exploration",
